@@ -608,3 +608,64 @@ func deepSliceField(al *ssa.Alloc, field string, visit func(ssa.Value) bool) {
 		rec(fa, 0)
 	}
 }
+
+// ---------------------------------------------------------------------------------------------
+// C02/R8 require-of-tla-diagnosed-for-every-requirer.
+//
+// `require()` cannot wait for a module that uses top-level await (directly or through static
+// imports); bundling it anyway hands the requirer a namespace whose module has not finished
+// evaluating. reportInvalidTLA is where that is diagnosed. Whether a `require` record is reported
+// may depend on the *required* file being on a top-level-await chain, never on the *requiring* file
+// being on one: a plain CommonJS file that requires such a module is the common case.
+func c02RequireOfTLADiagnosed(p *Prog) *RuleResult {
+	r := NewRule("C02/R8 require-of-tla-diagnosed-for-every-requirer", "the diagnostic for require() of a module on a top-level-await chain does not depend on the requiring file itself being on such a chain")
+	fn := p.FindFunc("bundler.(*scanner).reportInvalidTLA")
+	if !r.Anchor("bundler.(*scanner).reportInvalidTLA", fn != nil) {
+		return r
+	}
+	n := 0
+	eachInstr(fn, func(b *ssa.BasicBlock, in ssa.Instruction) {
+		c, ok := in.(*ssa.Call)
+		if !ok || !strings.HasSuffix(calleeFullName(c), "logger.Log).AddErrorWithNotes") {
+			return
+		}
+		n++
+		r.Instances++
+		key := fmt.Sprintf("reportInvalidTLA error #%d is independent of the requirer's own chain", n)
+		bad := ""
+		for _, ifi := range controlDepIfsTransitive(b) {
+			sliceCond(ifi.Cond, func(v ssa.Value) bool {
+				fa, ok := v.(*ssa.FieldAddr)
+				if !ok || fieldAddrName(fa) != "parent" {
+					return true
+				}
+				// fa.X = &<elem>.tlaCheck ; <elem> = &s.results[i]
+				tc, ok := fa.X.(*ssa.FieldAddr)
+				if !ok || fieldAddrName(tc) != "tlaCheck" {
+					return true
+				}
+				if ia, ok := tc.X.(*ssa.IndexAddr); ok {
+					if ph, ok := ia.Index.(*ssa.Phi); ok && ph.Comment == "rangeindex" {
+						bad = p.Pos(fa.Pos())
+					}
+					if bo, ok := ia.Index.(*ssa.BinOp); ok {
+						if ph, ok := bo.X.(*ssa.Phi); ok && ph.Comment == "rangeindex" {
+							bad = p.Pos(fa.Pos())
+						}
+					}
+				}
+				return true
+			})
+		}
+		if bad == "" {
+			r.OK(key, true, "no controlling condition reads tlaCheck.parent of the file whose records are being examined")
+		} else {
+			r.Fail(key, p.Pos(c.Pos()), "the require() diagnostic is only reached when the requiring file itself has a top-level-await parent (condition at "+bad+"): a file that merely requires a module with top-level await is bundled without an error and receives the module's namespace before the module has finished evaluating")
+		}
+	})
+	if !r.Anchor("the require() diagnostic in reportInvalidTLA", n >= 1) {
+		return r
+	}
+	r.Floor(1)
+	return r
+}
